@@ -108,6 +108,12 @@ def check_within(ctx):
                 roles = shape.Roles(lower, upper, {"$self.lower_eq": leq, "$self.upper_eq": ueq})
                 try:
                     tab = shape.table2(event, roles)
+                except shape.Tolerance as e:
+                    ctx.ob("C07.1", site, False, "%s branch, lower_eq=%s upper_eq=%s denotes %s" % (kind, leq, ueq, shape.describe(True, True, leq, ueq)),
+                           loc=prog.loc(m, f),
+                           msg="Interval.within (%s branch) decides membership with a tolerance comparison (%s): values near, but not equal to, a closed end "
+                               "belong to the interval, consecutive bins overlap and the array and scalar branches disagree" % (kind, e))
+                    continue
                 except shape.Unknown as e:
                     raise AnalysisError("%s (%s branch): %s" % (site, kind, e))
                 exp = shape.expected_table(leq, ueq)
@@ -242,6 +248,10 @@ def check_apply_threshold(ctx):
             roles = shape.Roles(thr if hl else None, (up if hl else thr) if hu else None, {})
             try:
                 tab = shape.table2(event, roles)
+            except shape.Tolerance as e:
+                ctx.ob("C07.3", site, False, "%s denotes %s" % (bt, shape.describe(hl, hu, lc, uc)), loc=prog.loc(m, o.node),
+                       msg="apply_threshold(%r) uses a tolerance comparison (%s): values near a threshold are assigned to the event" % (bt, e))
+                continue
             except shape.Unknown as e:
                 raise AnalysisError("%s(%r): %s" % (site, bt, e))
             exp = shape.expected_table(lc, uc, hl, hu)
